@@ -32,6 +32,7 @@ var concFns = []concFn{
 	{"syncer/syncer.go", "Syncer", "releaseInflight"},
 	{"syncer/syncer.go", "Syncer", "runPeer"},
 	{"syncer/syncer.go", "Syncer", "allowConnect"},
+	{"syncer/syncer.go", "Syncer", "withPeers"},
 	{"syncer/syncer.go", "Syncer", "Run"},
 	{"syncer/syncer.go", "Syncer", "Close"},
 	{"rhp/v4/server.go", "Server", "Close"},
@@ -187,6 +188,7 @@ func skeletonDepth(body *ast.BlockStmt, self string, helpers map[string]*ast.Fun
 			}
 			call("", x)
 		case *ast.SendStmt:
+			walk(x.Value)
 			toks = append(toks, "send "+types.ExprString(x.Chan))
 		case *ast.UnaryExpr:
 			if x.Op == token.ARROW {
@@ -429,6 +431,14 @@ theorem runPeer_exit_removes_locked : under "Syncer.runPeer" "call s.mu.Lock" "c
     ["delete s.peers", "event s.rmpeer"] = true := by decide
 theorem runPeer_closes_peer :
     (before "Syncer.runPeer" "call p.Close" "delete s.peers" && has "Syncer.runPeer" "recv s.tg.Done()") = true := by decide
+
+/-- withPeers: every relay goroutine joins the thread group itself, before it calls the relay
+function, and leaves it when the relay ends (a broadcast returns at the first success; the other
+relays go on and Close must wait for them) -/
+theorem withPeers_registers_each_goroutine :
+    (before "Syncer.withPeers" "go{" "call s.tg.Add" &&
+     beforeFrom "Syncer.withPeers" "go{" "call s.tg.Add" "call fn" &&
+     beforeFrom "Syncer.withPeers" "go{" "defer call done" "call fn") = true := by decide
 
 /-! ### peer caps (model: Caps.step fixed := true) -/
 
